@@ -197,7 +197,7 @@ def build_inputs(case, d):
             objs.append(f"./libs{fi}.so")
         else:
             symgen.build_obj(spec, f"m{fi}.o", d)
-            tools.ar(f"liba{fi}.a", [f"m{fi}.o"], cwd=d)
+            symgen.ar(f"liba{fi}.a", [f"m{fi}.o"], cwd=d)
             ars.append(f"liba{fi}.a")
     if ars:
         objs += ["--start-group", *ars, "--end-group"]
